@@ -39,8 +39,11 @@ let () = iter_lines (fun line ->
   match words line with
   | ["MS"; a; b] -> print_endline (string_of_z (Gen_Leaves.pvMultShift (z_of_string a) (z_of_string b)))
   | ["SC"; a] -> print_endline (string_of_z (Gen_Leaves.pvGetStepCount (z_of_string a)))
+  | ["SCODE"; w; x] -> print_endline (string_of_z (CodeGetter.code_of_signed (z_of_string w) (z_of_string x)))
+  | ["UCODE"; w; x] -> print_endline (string_of_z (CodeGetter.code_of_unsigned (z_of_string w) (z_of_string x)))
   | ["CMP"; a; b] -> print_endline (string_of_z (Gen_Leaves.pvCompare (z_of_string a) (z_of_string b)))
-  | (("FH" | "F" | "B" | "S") as cmd) :: _v :: n :: ws ->
+  | (("FH" | "F" | "B" | "S") as cmd) :: v :: n :: ws ->
+    let coarse = (v = "P" || v = "H") in
     let n = int_of_string n in
     let (hs, ids, rest) = parse_pairs n ws in
     let (qh, qi) = match rest with [a; b] -> (z_of_string a, b) | _ -> (zero, "") in
@@ -48,8 +51,9 @@ let () = iter_lines (fun line ->
     let hash zi = let i = int_of_z zi in push (4 * (i + 2)); hs.(i) in
     let item zi = zi in
     let idof a = if a = -2 then qi else ids.(a) in
+    let cls s = if coarse then string_of_int (int_of_string s / 2) else s in
     let eqf za zb = let a = int_of_z za and b = int_of_z zb in
-      push (4 * (a + 2) + 1); push (4 * (b + 2) + 2); idof a = idof b in
+      push (4 * (a + 2) + 1); push (4 * (b + 2) + 2); cls (idof a) = cls (idof b) in
     let cnt = z_of_int n in
     let qx = z_of_int (-2) in
     let res = match cmd with
@@ -68,15 +72,15 @@ let () = iter_lines (fun line ->
     Printf.printf "%d %d\n" (if ok then 1 else 0) (if ok then 1 else 0)
   | (("HSORT" | "RSORT") as cmd) :: rest ->
     (* HSORT v n pairs  = RadixSortG R=8 grouping W=64 ;  RSORT R W g n pairs *)
-    let (r, w, g, n, ws) = match cmd, rest with
-      | "HSORT", _v :: n :: ws -> (8, 64, true, int_of_string n, ws)
-      | _, r :: w :: g :: n :: ws -> (int_of_string r, int_of_string w, g <> "0", int_of_string n, ws)
+    let (r, w, g, n, ws, coarse) = match cmd, rest with
+      | "HSORT", v :: n :: ws -> (8, 64, true, int_of_string n, ws, (v = "P" || v = "H"))
+      | _, r :: w :: g :: n :: ws -> (int_of_string r, int_of_string w, g <> "0", int_of_string n, ws, false)
       | _ -> failwith "bad" in
     let (hs, ids, _) = parse_pairs n ws in
     let l = Array.to_list (Array.init n (fun i -> (hs.(i), z_of_string ids.(i)))) in
     log := []; nlog := 0;
     let sw l i j = push (int_of_z i * 100000 + int_of_z j); SorterSort.swap l i j in
-    let eqf a b = (string_of_z a = string_of_z b) in
+    let eqf a b = if coarse then (int_of_z a / 2 = int_of_z b / 2) else (string_of_z a = string_of_z b) in
     let res = SorterSort.coq_RadixSortG sw eqf (z_of_int r) g (z_of_int w) l in
     (match res with
      | Ok l' ->
